@@ -98,6 +98,15 @@ func ParseWriteMultipleCoilsRequestTCP(data []byte) (*WriteMultipleCoilsRequestT
 		tmpErr.Packet.Function = FunctionWriteMultipleCoils
 		return nil, tmpErr
 	}
+	if len(data) < 13 {
+		// length in header matches the data but packet is too short for this function. NB: slicing data beyond
+		// its length would silently read stale bytes from the spare capacity of the underlying buffer
+		tmpErr := NewErrorParseTCP(ErrIllegalDataValue, "received data length too short to be valid packet")
+		tmpErr.Packet.TransactionID = header.TransactionID
+		tmpErr.Packet.UnitID = unitID
+		tmpErr.Packet.Function = FunctionWriteMultipleCoils
+		return nil, tmpErr
+	}
 	coilCount := binary.BigEndian.Uint16(data[10:12])
 	if !(coilCount >= 1 && coilCount <= 1968) { // 0x0001 to 0x07B0
 		tmpErr := NewErrorParseTCP(ErrIllegalDataValue, "invalid coils count. valid range 1..1968")
